@@ -3,36 +3,104 @@ import json, os, sys, time
 from . import engine
 from .engine import VERIF
 
-# Per-property static description used in evidence (what is claimed / what is not).
 PROPS = {}
 
 
-def describe(pid, level, explanation, not_decided, assumptions):
-    PROPS[pid] = {'level': level, 'explanation': explanation, 'not_decided': not_decided, 'assumptions': assumptions}
+def describe(pid, level, explanation, not_decided, assumptions=None):
+    PROPS[pid] = {'level': level, 'explanation': explanation, 'not_decided': not_decided, 'assumptions': (assumptions or []) + COMMON_ASSUMPTIONS}
 
 
 COMMON_ASSUMPTIONS = [
-    'rustc (nightly, pinned in this sandbox) builds MIR and resolves traits correctly; MIR is read at -Zmir-opt-level=0 with debug/overflow assertions off',
-    'std Vec/VecDeque/slice/ptr and hashbrown behave as documented (effect table in vlib/effects.py where used)',
-    'facts are extracted from the current /repo working tree on every run (cargo +nightly check through the broodfacts driver); cfg(test) code is not part of the analysed program',
+    'rustc (nightly toolchain of this sandbox) builds MIR and resolves traits correctly; MIR is read at -Zmir-opt-level=0 with debug/overflow assertions off',
+    'std Vec/VecDeque/slice/ptr/ManuallyDrop and hashbrown behave as documented (effect tables: REALLOC, SHRINK, ELEMENT_CODE in vlib/rules_walk.py and vlib/rules_unwind.py)',
+    'facts are re-extracted from the current /repo working tree on every run; cfg(test) code is not part of the analysed program; user unsafe code is out of scope',
 ]
 
+# Which registry-walk functions matter for which property (by trait-method name). Rules over walk
+# traces (W*, O*, U*) are filtered to these so that a violation is attributed only to properties it breaks.
+ENTITY_WALKS = {'push_components', 'extend_components', 'reserve_components', 'push_components_from_buffer_and_component',
+                'push_components_from_buffer_skipping_component', 'pop_component_row', 'remove_component_row', 'set_component',
+                'new_components_with_capacity', 'clear_components', 'shrink_components_to_fit', 'size_of_components_for_identifier'}
+VIEW_WALKS = {'view', 'view_one', 'view_one_maybe_uninit'}
+SERDE_WALKS = {'serialize_components_by_row', 'serialize_components_by_column', 'deserialize_components_by_row', 'deserialize_components_by_column', 'expected_row_component_names'}
+SCOPES = {
+    'C01': ENTITY_WALKS,
+    'C03': VIEW_WALKS | {'set_component'},
+    'C04': None,
+    'C05': None,
+    'C06': SERDE_WALKS,
+    'C09': {'par_view'},
+    'C10': {'clone_components', 'clone_from_components'},
+    'C11': SERDE_WALKS | {'try_free_components', 'free_components', 'new_components_with_capacity'},
+    'C16': {'component_eq'},
+    'C17': None,
+}
+
 describe('C01', 'other',
-         'Decides structural clauses necessary for the world to behave like a map: row operations keep identifier column, component columns and length in step (P9, W-rules), swap-remove re-points the moved entity (P4), shape changes relocate (P5), len tracks population (P6), popped slots are used (P1), deletes free (P3).',
-         'equality with a reference map over histories; values; order of identifiers returned by extend',
-         COMMON_ASSUMPTIONS)
+         'Structural clauses necessary for the world to behave like a map from live identifiers to component sets: every row operation keeps component columns, identifier column and length in step (W1-W3 induction step on the entity walks, O2 write-back, O5 packed-row linearity, O6 adoption guard, P9 length bookkeeping); swap-remove re-points the entity it moved (P4); shape changes relocate the row and both location records (P5); World.len tracks the population (P6); popped slots are used and deletes free (P1, P3); one table per component set (P7); clone_from clears destination-only tables (C10a); batches are rectangular (G4); the canonical form of an entity is the registry-ordered list for every subset/permutation (V-CANON witnesses).',
+         'equality with a reference map over histories; component values; order of identifiers returned by extend')
 describe('C02', 'other',
-         'Decides: stale identifiers are rejected by a dominating generation comparison (G1); reuse bumps the generation (G2); slots are never removed (A1); freed slots re-enter the free list and popped ones are used (P1,P2,P3); moves keep locations current (P4,P5); clone remaps locations (P8).',
-         'global uniqueness over a lifetime as a computed fact (generation arithmetic over histories)',
-         COMMON_ASSUMPTIONS)
+         'Stale identifiers are rejected by a dominating generation comparison (G1); reuse bumps the generation (G2); slots are never removed, so generations survive (A1); freed slots re-enter the free list, popped ones are used, deletes free exactly the removed identifier (P1, P2, P3); the free list is copied/deserialised verbatim (A2); moves keep locations current (P4, P5); clone remaps locations into the clone (P8); deserialisation rebuilds locations from actual rows and rejects duplicates/missing slots (G5iii).',
+         'global uniqueness of identifiers over a lifetime as a computed fact (generation arithmetic over histories)')
+describe('C03', 'other',
+         'A view touches only the head column of its own component, at the viewed mutability, with the shared length, and steps past it exactly when the bit is set (W1-W3, W5 on view/view_one/view_one_maybe_uninit); both filter tables are the right boolean function of identifier bits, cell by cell (T4); views are only materialised under the matching filter (G7); sub-views never strengthen mutability (T5); Archetype.length bookkeeping (P9).',
+         'one result per entity, values, size_hint brackets (numeric); next/fold agreement is covered only through G7')
+describe('C04', 'other',
+         'No second owner of a live column is ever dropped (O1) or used unwrapped / raw (U3); fresh Vecs stored as columns are never dropped (O3); every value leaving a column through the packed buffer is consumed exactly once (O5); slots are written back with the raw parts of the Vec rebuilt from them (O2), adoption only over empty unallocated columns (O6); typed access at the head type (W3); the deserialising column/row readers drop or keep each value exactly once on error paths (G5iv, G5v); shape change moves (P5).',
+         'counting drops over histories; leaks caused by user mem::forget')
+describe('C05', 'other',
+         'Induction step of the column-store safety invariant for every registry walk in both feature sets: one identifier bit per step (W1), column list advanced iff bit set and only column 0 touched (W2), every cast/raw-parts/unaligned access at the head component type (W3), length and capacity from the matching slot (W5); (ptr,cap) written back after every growth (O2), no dangling/adopted-over-allocated slots (O3, O6), reconstructed owners never freed (O1), buffers never moved under user code (U1); lookup tables purged before their keys are freed, clone locations remapped (P7, P8); swap-remove and batch guards (P4, G4); views only under their filter (G7, T5).',
+         'absence of undefined behaviour in general (Miri/Kani territory); capacity arithmetic inside Vec; zero-sized-type corner cases of a particular monomorphisation')
+describe('C06', 'other',
+         'Writer and reader agree on the wire shape in both encodings (X1: container kind/name/length expression and element sequence for 14 pairs incl. registry walks; X3: is_human_readable selects row/column on both sides); the serde walks map the k-th stored column to the k-th serialised column (W1-W3, W5); no reachable allocator state is unserialisable: slots are never lost (P1, P2), the free list round-trips verbatim (A2); identifier padding validation accepts exactly canonical identifiers (G5i); reader rebuilds locations from rows (G5iii); len recomputed (P6).',
+         'equality of the round-tripped world; lock-step behaviour afterwards')
+describe('C07', 'other',
+         'Premises of the commutation argument: every task runs exactly once (S1 fork/skip structure, S2 flag <=> ran, S5 flags forwarded between stages); stages are sequential (S5); a stage only contains tasks the aliasing oracle says commute (T3 reachable cells, T8 merge table, V-SCHED in thorough: computed Stages type == reference greedy partition); an early-started task conflicts with nothing still running (S3/S3q admission, S4 claims accumulate, T1 claim per view kind, T9 entry filter).',
+         'equality of final states; behaviour of user systems; rayon::join itself')
+describe('C08', 'other',
+         'The only ways two tasks overlap are same-stage (compile time) and add-on (run-time claim map). Decided: the claim a task publishes covers what it can touch (T1 view kind -> claim, T8 merge of views and entry views, T9 entry filter, T4 filter tables); claims of all running tasks are present (S4 no blind insert, S1 recorded before the rest of the stage); admission requires compatible components AND resources and forwards the merged state (S2/S3, S3q); stage table T3; V-SCHED in thorough.',
+         'hashbrown/rayon internals; what unsafe user code does')
+describe('C09', 'other',
+         'par_view selects exactly the columns view selects with the same mutability: W1-W3, W5 on CanonicalParViews (bit/advance/type/length/mutability per view kind); parallel view kinds require Sync for shared and Send for exclusive access (T7); archetype selection uses the same filter tables (T4) and views are only built under the filter (G7).',
+         'multiset equality with the sequential query; each entity exactly once at run time; rayon split patterns (RepeatNone::split_at arithmetic is covered by rule R9)')
+describe('C10', 'other',
+         'Cloned columns are fresh allocations owned by the clone (O3, W on clone_components/clone_from_components, O1, O2); no location of the clone points into the source (P8), lookup tables rebuilt through identifier_map (P7); destination archetypes absent from the source are cleared on every path (C10a); len copied (P6); free list copied verbatim (A2).',
+         'equality after clone; independence under arbitrary later histories')
+describe('C11', 'other',
+         'Every validator the property relies on is present and guards the Ok: identifier padding (G5i, exhaustive constant propagation over LEN x last byte), duplicate archetypes (G5ii), allocator slots bounds/duplicates/missing (G5iii), column/row readers push once per element and clean up exactly what was initialised (G5iv, G5v); a deserialised World passes the duplicate-component assertion (G3); wire shapes agree (X1, X3); walks (W, O on the serde walks and clean-up walks).',
+         'absence of panics on absurd lengths; semantic validity of the resulting world under later operations')
+describe('C12', 'other',
+         'For every schedule of the generated family the compile-time Stages type equals the reference greedy partition by declared access (V-SCHED: exhaustive for 2-task schedules over the view alphabet, both directions); T3/T8 explain per cell; stages sequential and flags forwarded (S5); no blocking/synchronising primitive anywhere in the crate, so run_schedule only waits on its own joins and terminates on a 1-thread pool (S7).',
+         'that rayon actually uses two threads; wall-clock parallelism')
 describe('C13', 'other',
-         'Decides: no slot is lost or duplicated (P1,P2,P3,A1), location index kept current on swap-remove and shape change (P4,P5), archetype table and its lookup tables stay in step (P7), len adjusted with every structural change (P6), Archetype.length bookkeeping (P9).',
-         'the whole-state invariant after every history',
-         COMMON_ASSUMPTIONS)
+         'No slot lost or duplicated (P1, P2, P3, A1); one table per component set with lookup tables in step, purge-before-erase (P7); World.len and Archetype.length adjusted with every structural change on the same paths (P6, P9); locations kept current (P4, P5, P8, G5iii); deserialisation rejects duplicate tables (G5ii); clone_from clears destination-only tables (C10a).',
+         'the whole-state invariant after every history')
+describe('C14', 'other',
+         'Type-checker verdicts over a systematically generated family (V-C14): every pair of view kinds on one component/resource in each position (views/views, views/entry, entry/entry, repeated entry queries, resource views) with >= 1 mutable must be rejected and its conflict-free twin must compile; thread-crossing APIs with !Send/!Sync payloads must be rejected; foreign components/resources rejected. Structural generalisations: no mutable sub-view from a shared super view (T5), every unsafe Send/Sync impl bounds its payload parameters (T6), parallel view and Task bounds (T7).',
+         'programs outside the generated family (T5/T6/T7 generalise structurally)')
+describe('C15', 'other',
+         'Resource lookup is positional recursion on the type index (R1 accessor clause) and has the requested types for every position, subset and order (V-RES witnesses); no entity operation touches World.resources, only the listed accessors write it, clone/clone_from copy it on every path (R1); resource claims per view kind (T1); resources serialised/deserialised position by position (X1).',
+         'value preservation across long histories')
+describe('C16', 'other',
+         'Equality inspects everything the statement lists: all four World fields, allocator slots+free, slot generation+location, location identifier+index, archetype length/identifiers/components (E1); Archetypes::eq is (same table count) && (every table has an equal counterpart found by identifier bytes) — both conjuncts needed for symmetry (E2); the column comparison walk compares column 0 of both sides at the head type with each side\'s own length (W on component_eq); free-list order preserved by clone/serde (A2).',
+         'algebraic properties of PartialEq on user component types')
+describe('C17', 'fault_enumeration',
+         'Enumerates fault positions (unwind edges) instead of injecting faults: every user-code site (component Clone/Drop/PartialEq/Serialize/Deserialize calls, element code run by Vec methods, Drop terminators of component type) in every registry walk is examined for (U1) running inside a realloc-to-write-back window, (U2) running after a column was shrunk/rewritten but before the archetype length is published on a reachable archetype, (U3) raw element operations / unwrapped rebuilt owners; plus O1/O2, clean-up agreement of the row reader (G5v), schedule fork structure (S1) and absence of catch_unwind/blocking (S7). The set of unsafe windows on the current tree is exactly the listed known findings (D5, D6, clear, clear_detached).',
+         'panics inside hashbrown/rayon; user Drop impls that themselves violate safety')
+describe('C18', 'other',
+         'Every way to obtain a World passes the duplicate-component assertion, which inspects every component and panics on a duplicate (G3); a Batch can only be built by the unsafe new_unchecked or by new under a true check_len, whose truth table is (own column length == len) && tail (G4); fields are private and the unchecked constructor is unsafe; ragged entities! rows are rejected (V-C18 witnesses).',
+         'nothing material')
 
 
 def evidence_path(pid):
     return os.path.join(VERIF, 'evidence', pid + '.json')
+
+
+def in_scope(pid, tag):
+    sc = SCOPES.get(pid, None)
+    if sc is None or tag is None:
+        return True
+    return tag in sc
 
 
 def run_property(pid, tier, seed, repo=None):
@@ -59,36 +127,40 @@ def run_property(pid, tier, seed, repo=None):
             errors.append({'rule': ru.id, 'config': cfg, 'error': repr(res)})
             violations.append(engine.Violation(ru.id, 'check-error/%s' % cfg, '-', 'rule crashed: %r' % (res,)))
             continue
-        n = len(res.instances)
+        total = len(res.instances)
+        tags = getattr(res, 'inst_tags', [None] * total)
+        kept = [i for i, tg in zip(res.instances, tags) if in_scope(pid, tg)]
+        n = len(kept)
         instances += n
-        for i in res.instances:
+        for i in kept:
             distinct.add((ru.id, i))
-        if res.instances:
-            samples.append('%s[%s]: %s' % (ru.id, cfg, res.instances[0]))
-        per_rule.append({'rule': ru.id, 'config': cfg, 'instances': n, 'floor': ru.floor_for(cfg), 'violations': len(res.violations), 'doc': ru.doc})
-        if n < ru.floor_for(cfg):
+        if kept:
+            samples.append('%s[%s]: %s' % (ru.id, cfg, kept[0]))
+        vs = [v for v in res.violations if in_scope(pid, v.tag)]
+        per_rule.append({'rule': ru.id, 'config': cfg, 'instances': n, 'instances_unscoped': total, 'floor': ru.floor_for(cfg), 'violations': len(vs), 'doc': ru.doc})
+        if total < ru.floor_for(cfg):
             violations.append(engine.Violation(ru.id, 'below-floor/%s' % cfg, '-',
-                                               'rule examined %d instances, fewer than the %d confirmed by hand: the structure the clause relies on is gone or unrecognisable' % (n, ru.floor_for(cfg))))
-        violations.extend(res.violations)
+                                               'rule examined %d instances, fewer than the %d confirmed by hand: the structure the clause relies on is gone or unrecognisable' % (total, ru.floor_for(cfg))))
+        violations.extend(vs)
     programs = 0
+    exhaustive = []
     for fam, fr in wres:
         programs += fr['programs']
         instances += fr['programs']
         for k in fr['keys']:
             distinct.add((fam, k))
         samples.extend(fr['samples'][:2])
-        per_rule.append({'rule': fam, 'config': 'witness', 'instances': fr['programs'], 'floor': fr['floor'], 'violations': len(fr['violations']), 'doc': fr['doc']})
+        per_rule.append({'rule': fam, 'config': 'witness', 'instances': fr['programs'], 'floor': fr['floor'], 'violations': len(fr['violations']), 'doc': fr['doc'], 'exhaustive': fr.get('exhaustive')})
         violations.extend(fr['violations'])
-    # de-duplicate (same key from two configs)
+        exhaustive.append(bool(fr.get('exhaustive')))
     uniq = {}
     for v in violations:
         uniq.setdefault(v.key, v)
     new = []
+    nknown = 0
     for key, v in sorted(uniq.items()):
-        if key in known_keys and known_keys[key]['property'] == pid:
-            print('KNOWN-FINDING: property=%s %s — %s' % (pid, key, known_keys[key].get('what', v.msg)))
-        elif key in known_keys:
-            # listed under another property: still the same genuine defect
+        if key in known_keys:
+            nknown += 1
             print('KNOWN-FINDING: property=%s %s — %s' % (pid, key, known_keys[key].get('what', v.msg)))
         else:
             new.append(v)
@@ -96,22 +168,23 @@ def run_property(pid, tier, seed, repo=None):
         rp = os.path.join(VERIF, 'evidence', 'replay', '%s-%d.json' % (pid, n))
         with open(rp, 'w') as f:
             json.dump({'property': pid, 'tier': tier, **v.to_json()}, f, indent=1)
-        print('%s: %s' % (v.where, v.msg))
+        print('%s: [%s] %s' % (v.where, v.rule, v.msg))
         print('VIOLATION property=%s replay=%s' % (pid, rp))
     wall = time.time() - t0
     cov = {
         'evaluations': instances,
         'distinct_nontrivial': len(distinct),
-        'rule': 'instances = constructs (functions, impls, call sites, table cells, witness programs) enumerated from the resolved program by each rule; distinct = distinct (rule, instance) pairs; an instance is non-trivial because a rule only counts a construct after it matched the shape the rule reasons about',
-        'samples': samples[:12] or ['(none)'],
+        'rule': 'evaluations = constructs (walk functions, call sites, table cells, user-code sites, witness programs) enumerated from the resolved program by the rules serving this property; distinct = distinct (rule, instance) pairs; an instance is counted only after it matched the shape the rule reasons about (non-trivial by construction); each rule fails closed below its hand-counted floor',
+        'samples': samples[:14] or ['(none)'],
         'explanation': desc['explanation'] + ' NOT decided: ' + desc['not_decided'] + '.',
         'programs': programs,
         'rules': per_rule,
+        'known_findings_matched': nknown,
         'extraction': ctx.extract_info,
         'errors': errors,
     }
-    if wres and all(fr.get('exhaustive') for _, fr in wres):
-        cov['exhaustive_witness_families'] = True
+    if wres:
+        cov['exhaustive'] = all(exhaustive)
     ev = {
         'property_id': pid, 'tier': tier, 'seed': seed, 'level': desc['level'],
         'coverage': cov, 'assumptions': desc['assumptions'], 'wall_s': round(wall, 2), 'violations': len(new),
@@ -119,5 +192,5 @@ def run_property(pid, tier, seed, repo=None):
     with open(evidence_path(pid), 'w') as f:
         json.dump(ev, f, indent=1)
     print('%s %s: %d rule runs, %d instances, %d witness programs, %d new violations, %d known (%.1fs)' % (
-        pid, tier, len(results), instances, programs, len(new), len(uniq) - len(new), wall))
+        pid, tier, len(results), instances, programs, len(new), nknown, wall))
     return 1 if new else 0
